@@ -11,6 +11,13 @@ package pipeline
 //   createInit / createStore / deleteRemove / deleteClose   for the other pipeline q
 // The schedule of the brief - old.Init(); new.Inherit(old); old.Handle(ctx) - is the sub-sequence
 // get(r) ; pipInherit ; run(r) that the generator produces in all its interleavings.
+// A pipeline generation is built from version fv of its filters and version pv of its resilience
+// section; an update changes either or both (an update of the resilience section alone leaves the
+// filter's own spec byte-identical).  Two kinds make the configuration of the generation a request
+// holds observable (behaviours of their own, with request classes):
+//   RateLimiter        class "x" requests (POST) fall under a URL rule limited to one permit per hour
+//   Proxy/resilience   class "f" requests are answered 503 by the backend: the Proxy retries them as the
+//                      retry policy of the pipeline's resilience section says (maxAttempts = pv + 1)
 
 import (
 	"crypto/tls"
@@ -25,6 +32,7 @@ import (
 	"runtime/debug"
 	"strings"
 	"sync"
+	"sync/atomic"
 	"testing"
 	"time"
 
@@ -66,15 +74,26 @@ func init() { logger.InitNop() }
 
 // c11Kind describes how to build a pipeline around one filter kind and what a request needs.
 type c11Kind struct {
-	name    string                    // label
-	kind    string                    // registered kind name of the filter under test
-	filters func(ver int) string      // yaml of the `filters:` entries (and optionally `flow:`), version ver
-	ctx     string                    // "http" | "mqtt-publish" | "mqtt-connect"
-	want    string                    // result of Handle on a healthy generation
-	cluster bool                      // needs spec.Super().Cluster()
-	slow    bool                      // Close finishes asynchronously: wait after an update, replay fewer schedules
-	header  map[string]string         // request headers
+	name    string               // label
+	kind    string               // registered kind name of the filter under test
+	filters func(ver int) string // yaml of the `filters:` entries (and optionally `flow:`), version ver
+	ctx     string               // "http" | "mqtt-publish" | "mqtt-connect"
+	want    string               // result of Handle on a healthy generation
+	cluster bool                 // needs spec.Super().Cluster()
+	slow    bool                 // Close finishes asynchronously: wait after an update, replay fewer schedules
+	header  map[string]string    // request headers
 	tls     bool
+	beh     string              // behaviours replayed: "" generic (Kinds = <<"k">>), "rl" / "px" with request classes
+	resil   func(pv int) string // yaml entries of the `resilience:` section, version pv (default: a policy nobody refers to)
+}
+
+var c11Attempts sync.Map // request id -> *int64: calls that reached the backend
+
+func c11AttemptsOf(id string) int64 {
+	if v, ok := c11Attempts.Load(id); ok {
+		return atomic.LoadInt64(v.(*int64))
+	}
+	return 0
 }
 
 var (
@@ -89,6 +108,15 @@ var (
 func c11Setup(t *testing.T) {
 	c11Env.Do(func() {
 		c11HTTPBack = httptest.NewServer(http.HandlerFunc(func(w http.ResponseWriter, r *http.Request) {
+			if id := r.Header.Get("X-C11-Req"); id != "" {
+				v, _ := c11Attempts.LoadOrStore(id, new(int64))
+				atomic.AddInt64(v.(*int64), 1)
+			}
+			if r.Header.Get("X-C11-Class") == "f" { // the backend fails this class of requests
+				w.WriteHeader(503)
+				w.Write([]byte("unavailable"))
+				return
+			}
 			w.WriteHeader(200)
 			w.Write([]byte("ok"))
 		}))
@@ -177,10 +205,18 @@ func c11KindTable() []c11Kind {
 		{name: "Proxy", kind: "Proxy", ctx: "http", filters: func(v int) string {
 			return fmt.Sprintf("filters:\n- name: f\n  kind: Proxy\n  maxIdleConns: %d\n  pools:\n  - servers: [{url: \"%s\"}]\n", 100+v, c11HTTPBack.URL)
 		}},
-		{name: "RateLimiter", kind: "RateLimiter", ctx: "http", filters: func(v int) string {
+		{name: "Proxy/resilience", kind: "Proxy", ctx: "http", beh: "px", filters: func(v int) string {
+			return fmt.Sprintf("filters:\n- name: f\n  kind: Proxy\n  maxIdleConns: %d\n  pools:\n  - servers: [{url: \"%s\"}]\n"+
+				"    retryPolicy: retry\n    failureCodes: [503]\n", 100+v, c11HTTPBack.URL)
+		}, resil: func(pv int) string {
+			return fmt.Sprintf("- {name: retry, kind: Retry, maxAttempts: %d, waitDuration: 1ms}\n", pv+1)
+		}},
+		{name: "RateLimiter", kind: "RateLimiter", ctx: "http", beh: "rl", filters: func(v int) string {
 			return fmt.Sprintf("filters:\n- name: f\n  kind: RateLimiter\n  defaultPolicyRef: p\n  policies:\n"+
 				"  - {name: p, limitForPeriod: 1000000, limitRefreshPeriod: 10ms, timeoutDuration: 100ms}\n"+
-				"  - {name: unused, limitForPeriod: %d}\n  urls: [{url: {prefix: /}}]\n", 10+v)
+				"  - {name: tight, limitForPeriod: 1, limitRefreshPeriod: 1h, timeoutDuration: 1ms}\n"+
+				"  - {name: unused, limitForPeriod: %d}\n"+
+				"  urls:\n  - {methods: [POST], url: {prefix: /}, policyRef: tight}\n  - {url: {prefix: /}}\n", 10+v)
 		}},
 		{name: "RateLimiter/policy-changed", kind: "RateLimiter", ctx: "http", filters: func(v int) string {
 			return fmt.Sprintf("filters:\n- name: f\n  kind: RateLimiter\n  defaultPolicyRef: p\n  policies:\n"+
@@ -229,21 +265,38 @@ func c11KindTable() []c11Kind {
 	}
 }
 
-func (k *c11Kind) spec(pipe string, ver int) (*supervisor.Spec, error) {
-	y := fmt.Sprintf("name: %s\nkind: Pipeline\n%s", pipe, k.filters(ver))
+func (k *c11Kind) spec(pipe string, fv, pv int) (*supervisor.Spec, error) {
+	res := fmt.Sprintf("- {name: nobody, kind: Retry, maxAttempts: %d}\n", pv+1)
+	if k.resil != nil {
+		res = k.resil(pv)
+	}
+	y := fmt.Sprintf("name: %s\nkind: Pipeline\n%sresilience:\n%s", pipe, k.filters(fv), res)
 	if k.cluster {
 		return c11Super.NewSpec(y)
 	}
 	return supervisor.NewSpec(y)
 }
 
-func (k *c11Kind) newCtx() *context.Context {
+func (k *c11Kind) newCtx() *context.Context { return k.newCtxFor("n", "") }
+
+// newCtxFor: class "x" is a POST, class "f" tells the backend to fail; id lets the backend count the calls.
+func (k *c11Kind) newCtxFor(class, id string) *context.Context {
 	ctx := context.New(tracing.NoopSpan)
 	switch k.ctx {
 	case "http":
-		stdr := httptest.NewRequest(http.MethodGet, "http://c11.test/x?y=1", http.NoBody)
+		method := http.MethodGet
+		if class == "x" {
+			method = http.MethodPost
+		}
+		stdr := httptest.NewRequest(method, "http://c11.test/x?y=1", http.NoBody)
 		for h, v := range k.header {
 			stdr.Header.Set(h, v)
+		}
+		if class == "f" {
+			stdr.Header.Set("X-C11-Class", "f")
+		}
+		if id != "" {
+			stdr.Header.Set("X-C11-Req", id)
 		}
 		if k.tls {
 			stdr.TLS = &tls.ConnectionState{PeerCertificates: []*x509.Certificate{{Subject: pkix.Name{CommonName: "c11"}}}}
@@ -284,7 +337,9 @@ func c11Site(stack string) string {
 }
 
 // c11Handle runs one request through pipeline p: result, panic text, panic site.
-func (k *c11Kind) handle(p *Pipeline) (result, panicV, site string) {
+func (k *c11Kind) handle(p *Pipeline) (result, panicV, site string) { return k.handleFor(p, "n", "") }
+
+func (k *c11Kind) handleFor(p *Pipeline, class, id string) (result, panicV, site string) {
 	type res struct{ result, panicV, site string }
 	ch := make(chan res, 1)
 	go func() {
@@ -296,7 +351,7 @@ func (k *c11Kind) handle(p *Pipeline) (result, panicV, site string) {
 			}
 			ch <- r
 		}()
-		ctx := k.newCtx()
+		ctx := k.newCtxFor(class, id)
 		r.result = p.Handle(ctx)
 		ctx.Finish()
 	}()
@@ -309,13 +364,13 @@ func (k *c11Kind) handle(p *Pipeline) (result, panicV, site string) {
 }
 
 // build creates a pipeline generation: Init (prev == nil) or Inherit; returns the panic, if any.
-func (k *c11Kind) build(pipe string, ver int, prev *Pipeline) (p *Pipeline, err error) {
+func (k *c11Kind) build(pipe string, fv, pv int, prev *Pipeline) (p *Pipeline, err error) {
 	defer func() {
 		if e := recover(); e != nil {
 			p, err = nil, fmt.Errorf("%v", e)
 		}
 	}()
-	spec, err := k.spec(pipe, ver)
+	spec, err := k.spec(pipe, fv, pv)
 	if err != nil {
 		return nil, err
 	}
@@ -356,10 +411,16 @@ func c11HoldsAcrossUpdate(beh []vx.M) bool {
 }
 
 func TestVerifC11Kinds(t *testing.T) {
-	behs := vx.ReadBehaviours(t, "VERIF_IN")
+	behsOf := map[string][][]vx.M{"": vx.ReadBehaviours(t, "VERIF_IN")}
+	for _, b := range []string{"rl", "px"} {
+		if os.Getenv("VERIF_IN_"+strings.ToUpper(b)) != "" {
+			behsOf[b] = vx.ReadBehaviours(t, "VERIF_IN_"+strings.ToUpper(b))
+		}
+	}
 	out := vx.NewWriter(t, "VERIF_OUT")
 	defer out.Close()
 	c11Setup(t)
+	nid := 0
 	settle := time.Duration(vx.EnvInt("VERIF_SETTLE_MS", 150)) * time.Millisecond
 	for _, k := range c11KindTable() {
 		k := k
@@ -367,11 +428,35 @@ func TestVerifC11Kinds(t *testing.T) {
 			out.Raw(vx.M{"k": "kind", "kind": k.name, "built": false, "why": "kind " + k.kind + " is not registered in this build (needs a build tag)"})
 			continue
 		}
-		if probe, err := k.build("probe", 1, nil); err != nil {
+		behs, classes := behsOf[k.beh], k.beh != ""
+		if behs == nil {
+			behs, classes = behsOf[""], false
+		}
+		if probe, err := k.build("probe", 1, 1, nil); err != nil {
 			out.Raw(vx.M{"k": "kind", "kind": k.name, "built": false, "why": "Init failed offline: " + err.Error()})
 			continue
 		} else {
 			res, pv, site := k.handle(probe)
+			why := ""
+			if pv == "" && res == k.want && k.beh == "rl" { // baseline: the second POST is limited
+				r1, _, _ := k.handleFor(probe, "x", "")
+				r2, _, _ := k.handleFor(probe, "x", "")
+				if r1 != k.want || r2 != "rateLimited" {
+					why = fmt.Sprintf("harness: baseline: two POSTs to a fresh generation (limit 1 per hour) answered %q, %q", r1, r2)
+				}
+			}
+			if pv == "" && res == k.want && k.beh == "px" { // baseline: a failing backend call is made maxAttempts = pv + 1 = 2 times
+				r1, _, _ := k.handleFor(probe, "f", "probe-f")
+				if n := c11AttemptsOf("probe-f"); r1 != "failureCode" || n != 2 {
+					why = fmt.Sprintf("harness: baseline: a failing backend call on a fresh generation (retry maxAttempts 2) answered %q after %d attempts", r1, n)
+				}
+				c11Attempts.Delete("probe-f")
+			}
+			if why != "" {
+				probe.Close()
+				out.Raw(vx.M{"k": "kind", "kind": k.name, "built": false, "why": why})
+				continue
+			}
 			probe.Close()
 			if pv != "" || res != k.want {
 				out.Raw(vx.M{"k": "kind", "kind": k.name, "built": false,
@@ -379,7 +464,7 @@ func TestVerifC11Kinds(t *testing.T) {
 				continue
 			}
 		}
-		steps, nb := 0, 0
+		steps, nb, judged, unjudged := 0, 0, 0, 0
 		for bi, beh := range behs {
 			if k.slow && (nb >= 6 || !c11HoldsAcrossUpdate(beh)) {
 				continue
@@ -387,20 +472,24 @@ func TestVerifC11Kinds(t *testing.T) {
 			nb++
 			cur := map[string]*Pipeline{}
 			for _, p := range []string{"pa", "pb"} {
-				cur[p], _ = k.build(p, 1, nil)
+				cur[p], _ = k.build(p, 1, 1, nil)
 			}
 			held := map[string]*Pipeline{}
 			tgs := map[string]string{}
+			cls := map[string]string{}
 			failed := map[string]bool{}
 			var next, removed *Pipeline
-			pend := 0
+			pendF, pendP := 0, 0
 			for si, st := range beh {
 				steps++
 				bad := ""
 				r, p := vx.Str(st["r"]), vx.Str(st["p"])
 				switch vx.Str(st["a"]) {
 				case "start":
-					tgs[r], failed[r] = vx.Str(st["tg"]), false
+					tgs[r], failed[r], cls[r] = vx.Str(st["tg"]), false, "n"
+					if classes {
+						cls[r] = vx.Str(st["cl"])
+					}
 				case "get":
 					h, ok := cur[tgs[r]]
 					if ok != vx.Bool(st["found"]) {
@@ -408,25 +497,59 @@ func TestVerifC11Kinds(t *testing.T) {
 					}
 					held[r] = h
 				case "run":
-					res, pv, site := k.handle(held[r])
+					nid++
+					id := fmt.Sprintf("%s-%d", r, nid)
+					res, pv, site := k.handleFor(held[r], cls[r], id)
 					failed[r] = pv != ""
+					attempts := c11AttemptsOf(id)
+					c11Attempts.Delete(id)
 					if pv != "" {
 						out.Raw(vx.M{"k": "fail", "kind": k.name, "b": bi, "step": si, "r": r, "site": site, "panic": pv, "at": st, "behaviour": beh[:si+1]})
 						bad = fmt.Sprintf("panic: Handle on the held generation (version %d) of a %s pipeline: panic in %s: %s", vx.Int(st["ver"]), k.name, site, pv)
+					} else if cls[r] == "x" {
+						// the limit every generation configures for POST: is the call limited as the model says?
+						limited, want := res == "rateLimited", vx.Str(st["res"]) == "limited"
+						switch {
+						case limited == want && (limited || res == k.want):
+							judged++
+						case vx.Bool(st["closed"]):
+							// the request holds a closed generation: what its limiter does by now is not stated by C11,
+							// and the real limiter and the model's may be out of step from here on
+							bad = "unjudged"
+						case want:
+							bad = fmt.Sprintf("configured: a request beyond the limit of its URL rule (1 permit per hour) got %q from generation %d "+
+								"(filters v%d) of the pipeline, which is not closed; model says it is limited", res, vx.Int(st["ver"]), vx.Int(st["fv"]))
+						default:
+							bad = fmt.Sprintf("harness: generation %d answered %q to a request for which the model still has a permit", vx.Int(st["ver"]), res)
+						}
+					} else if cls[r] == "f" {
+						// the backend fails the call: the Proxy retries it as the retry policy of the generation says
+						want := int64(vx.Int(st["pol"]) + 1)
+						switch {
+						case vx.Str(st["res"]) != "bfail":
+							bad = "harness: class f request, model outcome " + vx.Str(st["res"])
+						case res != "failureCode":
+							bad = fmt.Sprintf("status: a request whose backend call fails got %q from generation %d, expected the backend's failure", res, vx.Int(st["ver"]))
+						case attempts != want:
+							bad = fmt.Sprintf("configured: generation %d of the pipeline (filters v%d, resilience v%d: retry maxAttempts %d) made %d attempts "+
+								"for a request whose backend call fails", vx.Int(st["ver"]), vx.Int(st["fv"]), vx.Int(st["pv"]), want, attempts)
+						default:
+							judged++
+						}
 					} else if res != k.want {
 						bad = fmt.Sprintf("status: Handle on the held generation (version %d) answered %q, a healthy generation answers %q", vx.Int(st["ver"]), res, k.want)
 					}
 				case "done":
 				case "pipBegin":
-					pend = vx.Int(st["ver"])
+					pendF, pendP = vx.Int(st["fv"]), vx.Int(st["pv"])
 				case "createInit":
 					var err error
-					if next, err = k.build(p, vx.Int(st["ver"]), nil); err != nil {
+					if next, err = k.build(p, vx.Int(st["fv"]), vx.Int(st["pv"]), nil); err != nil {
 						bad = "status: Init of another pipeline failed: " + err.Error()
 					}
 				case "pipInherit":
 					var err error
-					if next, err = k.build(p, pend, cur[p]); err != nil {
+					if next, err = k.build(p, pendF, pendP, cur[p]); err != nil {
 						bad = "status: Inherit failed: " + err.Error()
 					}
 					if k.slow {
@@ -446,6 +569,10 @@ func TestVerifC11Kinds(t *testing.T) {
 				default:
 					bad = "harness: unknown step " + vx.Str(st["a"])
 				}
+				if bad == "unjudged" {
+					unjudged++
+					break
+				}
 				if bad != "" {
 					out.Raw(vx.M{"k": "mismatch", "kind": k.name, "b": bi, "step": si, "a": vx.Str(st["a"]), "at": st, "what": bad, "behaviour": beh[:si+1]})
 					break
@@ -458,6 +585,7 @@ func TestVerifC11Kinds(t *testing.T) {
 				}()
 			}
 		}
-		out.Raw(vx.M{"k": "kind", "kind": k.name, "built": true, "behaviours": nb, "steps": steps})
+		out.Raw(vx.M{"k": "kind", "kind": k.name, "built": true, "behaviours": nb, "steps": steps, "beh": k.beh, "classes": classes,
+			"judged": judged, "unjudged": unjudged})
 	}
 }
